@@ -96,7 +96,7 @@ Definition scale2 (p q e : Z) : Z * Z := if 0 <=? e then (p, q * 2 ^ e) else (p 
 Definition round_f64 (p q : Z) : option (Z * Z) :=
   let e0 := Z.log2 p - Z.log2 q - 52 in
   let '(a0, b0) := scale2 p q e0 in
-  let e1 := if a0 / b0 <? two52 then e0 - 1 else e0 in
+  let e1 := if a0 <? two52 * b0 then e0 - 1 else e0 in
   let e := Z.max e1 (- 1074) in
   let '(a, b) := scale2 p q e in
   let m := a / b in
@@ -125,22 +125,26 @@ Definition parse_float (lit : bytes) : option f64 :=
 (* ---- shortest round-tripping decimal of m * 2^e (m > 0): (digits as integer R, P), value R * 10^P ----
    bounds are the midpoints to the neighbouring floats; they belong to the rounding interval
    exactly when m is even (ftoa.go roundShortest) *)
-Fixpoint shortest_loop (fuel : nat) (nx nl nu dn : Z) (incl : bool) (P : Z) : Z * Z :=
-  match fuel with
-  | O => (0, 0)
-  | S f =>
-    let '(A, B) := if 0 <=? P then (1, 10 ^ P) else (10 ^ (- P), 1) in
-    let bd := B * dn in
-    let t := (nx * A) / bd in
-    let okdown := (nl * A <? t * bd) || (incl && (nl * A =? t * bd)) in
-    let okup := ((t + 1) * bd <? nu * A) || (incl && ((t + 1) * bd =? nu * A)) in
-    let rem2 := 2 * (nx * A - t * bd) in
-    if okdown && okup then
-      (if rem2 <? bd then t else if bd <? rem2 then t + 1 else if Z.even t then t else t + 1, P)
-    else if okdown then (t, P)
-    else if okup then (t + 1, P)
-    else shortest_loop f nx nl nu dn incl (P - 1)
-  end.
+(* position P = plow + i; 10^P = B / A (A = 1 or B = 1); tlow = floor(x / 10^plow), so that
+   floor(x / 10^P) = tlow / 10^i needs no further long division *)
+Fixpoint shortest_loop (i : nat) (tlow plow nx nl nu dn : Z) (incl : bool) (A B : Z) : Z * Z :=
+  let P := plow + Z.of_nat i in
+  let bd := B * dn in
+  let t := tlow / 10 ^ Z.of_nat i in
+  let okdown := (nl * A <? t * bd) || (incl && (nl * A =? t * bd)) in
+  let okup := ((t + 1) * bd <? nu * A) || (incl && ((t + 1) * bd =? nu * A)) in
+  let rem2 := 2 * (nx * A - t * bd) in
+  if okdown && okup then
+    (if rem2 <? bd then t else if bd <? rem2 then t + 1 else if Z.even t then t else t + 1, P)
+  else if okdown then (t, P)
+  else if okup then (t + 1, P)
+  else match i with
+       | O => (0, 0)     (* not reached: 17 significant digits always round-trip *)
+       | S i' => if 1 <? B then shortest_loop i' tlow plow nx nl nu dn incl A (B / 10)
+                 else shortest_loop i' tlow plow nx nl nu dn incl (A * 10) B
+       end.
+
+Definition shortest_span : nat := 26.
 
 Definition shortest (m e : Z) : Z * Z :=
   let nx := 4 * m in
@@ -148,8 +152,12 @@ Definition shortest (m e : Z) : Z * Z :=
   let nl := if (m =? two52) && (- 1074 <? e) then 4 * m - 1 else 4 * m - 2 in
   let s := e - 2 in
   let '(k, dn) := if 0 <=? s then (2 ^ s, 1) else (1, 2 ^ (- s)) in
+  (* an upper bound of the decimal position of the first digit of the upper bound *)
   let p0 := ((Z.log2 (nu * k) - Z.log2 dn + 1) * 30103) / 100000 + 2 in
-  shortest_loop 60 (nx * k) (nl * k) (nu * k) dn (Z.even m) p0.
+  let plow := p0 - Z.of_nat shortest_span in
+  let tlow := if 0 <=? plow then (nx * k) / (10 ^ plow * dn) else (nx * k * 10 ^ (- plow)) / dn in
+  let '(A, B) := if 0 <=? p0 then (1, 10 ^ p0) else (10 ^ (- p0), 1) in
+  shortest_loop shortest_span tlow plow (nx * k) (nl * k) (nu * k) dn (Z.even m) A B.
 
 (* strconv.AppendFloat(nil, f, 'E', -1, 64) for finite f *)
 Definition format_float_E (f : f64) : bytes :=
